@@ -20,6 +20,7 @@ META = {
     "engine": "E1 nir2smt; reset-rooted BMC against a reference sequencer + free-state one/two-frame clauses",
     "encoded": ["csr.wishbone.WishboneCSRBridge.__init__", "csr.wishbone.WishboneCSRBridge.elaborate",
                 "wishbone.bus.Signature", "csr.bus.Interface"],
+    "also": 'CSR address widths 12 and 16',
     "bounds": "CSR data width 8/16/32/64 x ratio 1/2/4/8 (Wishbone data width <= 64), CSR address width "
               "log2(ratio)+0..3 (thorough: ..+5, up to 6); D = 2*(ratio+2)+2 frames from reset (thorough "
               "3*(ratio+2)+2): at least two (three) complete transfers incl. back-to-back, arbitrary idle gaps, "
